@@ -63,18 +63,20 @@ Theorem C19_spec : forall c,
   in_domain c = true -> k_malformed c = false -> spec_C19 c (model_impl c) = true.
 Proof. exact spec_C19_holds. Qed.
 
-(** The section is cut out of the manifest text at the first occurrence of the header string;
-    when that occurrence is the section header (the header string does not start anywhere in the
-    prefix [p]), the text handed to the TOML deserializer is the prefix's line feeds followed by the
-    section body: nothing else of the prefix matters — not its line-ending style (CRLF, lone
-    carriage returns), a byte-order mark, its comments or tables, its length. *)
+(** The section is cut out of the manifest text at the first occurrence of the header string that
+    starts its line (only white space, after leading byte-order marks, precedes it on the line).
+    When no occurrence inside the prefix [p] starts its line — the prefix may mention the header in
+    a comment or a string — and the header after [p] does, the text handed to the TOML deserializer
+    is the prefix's line feeds followed by the section body: nothing else of the prefix matters, not
+    its line-ending style (CRLF, lone carriage returns), a byte-order mark, its comments or tables. *)
 Theorem C19_section_text : forall p body,
-  header_not_before p (header ++ body) ->
+  no_header_line_in [] p (header ++ body) -> line_start_ok (cur_line [] p) = true ->
   section_text (p ++ header ++ body) = Some (only_line_feeds p ++ body).
 Proof. exact section_text_prefix. Qed.
 
 Theorem C19_prefix_irrelevant : forall p p' body,
-  header_not_before p (header ++ body) -> header_not_before p' (header ++ body) ->
+  no_header_line_in [] p (header ++ body) -> line_start_ok (cur_line [] p) = true ->
+  no_header_line_in [] p' (header ++ body) -> line_start_ok (cur_line [] p') = true ->
   only_line_feeds p = only_line_feeds p' ->
   section_text (p ++ header ++ body) = section_text (p' ++ header ++ body).
 Proof. exact section_text_prefix_irrelevant. Qed.
@@ -84,11 +86,19 @@ Theorem C19_crlf_prefix : forall s,
   only_line_feeds (flat_map (fun c => if c =? line_feed then [13; line_feed] else [c]) s) = only_line_feeds s.
 Proof. exact only_line_feeds_crlf. Qed.
 
-(** non-vacuity: "a\r\n# b\n" ++ header ++ "\nx" and the header mentioned in a comment (cut at the mention) *)
+(** the code before f0237de ([section_text_old], `split_once`) cut the manifest at a mention of the
+    header in a comment; the current code takes the header line *)
+Theorem C19_mention_old_refuted :
+  section_text w_mention = Some [10; 10; 120]
+  /\ section_text_old w_mention = Some ([32; 98; 101; 108; 111; 119; 10] ++ header ++ [10; 120]).
+Proof. exact mention_old_refuted. Qed.
+
+(** non-vacuity: CRLF prefix; BOM + indentation before the header; a mention inside a string *)
 Example C19_example_text :
   section_text ([97; 13; 10; 35; 32; 98; 10] ++ header ++ [10; 120]) = Some [10; 10; 10; 120]
-  /\ section_text ([35; 32] ++ header ++ [32; 98; 10] ++ header ++ [10; 120]) = Some ([32; 98; 10] ++ header ++ [10; 120]).
-Proof. vm_compute. split; reflexivity. Qed.
+  /\ section_text ([bom; 32; 32] ++ header ++ [10; 120]) = Some [10; 120]
+  /\ section_text ([100; 61; 34] ++ header ++ [34; 13; 10; 9] ++ header ++ [10; 120]) = Some [10; 10; 120].
+Proof. vm_compute. repeat split. Qed.
 
 (** the code before the repair: `default = "en"`, `locales = ["it"]`, `inherits = { it = "en" }`
     is a configuration the documentation accepts; it was rejected as `unknown locale "en"` *)
